@@ -348,7 +348,39 @@ def tangent_dual_stream(ctx, n):
                 ctx.disagree(f"C14:is_tangent:after-move:{name}", desc, "(True for the moved tangent, False for the old one)", (it2[1:3], it3[1:3]), replay=[desc])
 
 
+# minimised past failures (run first): (matrix, first point on the quadric, second point / direction, kind)
+CORPUS = [
+    # the second point carries rounding noise: the dual line matrix has a row of magnitude 1e-17 that must not be used as a plane
+    ([[2, 0, 1, -1], [0, -2, 3, -1], [1, 3, -1, 1], [-1, -1, 1, 24]], [3, -3, 2, 1],
+     [3.999999999999999, 3.0, -2.000000000000001, -1.0000000000000004], "secant"),
+    # tangent line: the projected conic has rank 1, its adjugate is pure rounding noise (1e-31) and must not be normalised
+    ([[-1, 3, -1, -1], [3, 1, -3, 3], [-1, -3, 0, 2], [-1, 3, 2, 31]], [0, -3, -1, 1], [9, 16, 3, 0], "tangent"),
+]
+
+
+def corpus_stream(ctx):
+    import geometer as g
+    from geometer.curve import Quadric
+    for A, p, x, kind in CORPUS:
+        A, p, x = np.array(A), np.array(p, dtype=float), np.array(x, dtype=float)
+        for dtype in (int, float):
+            Q = Quadric(A.astype(dtype))
+            q = x if kind == "secant" else p + x
+            L = line_through(g, p, q)
+            desc = f"corpus {kind} quadric dim=3 ({dtype.__name__}) A={A.tolist()} p={p.tolist()} through {q.tolist()}"
+            ctx.case(desc)
+            ctx.count(f"corpus:{kind}")
+            r = call_impl(lambda: Q.intersect(L))
+            if r[0] != "ok":
+                ctx.disagree(f"C14:intersect:{kind}:3d:error:{r[1]}", desc, "the known points", r[1:3], replay=[desc])
+                continue
+            ok, why = match_points(r[1], [p, q] if kind == "secant" else [p], 1e-7 if kind == "secant" else 2e-6)
+            if not ok:
+                ctx.disagree(f"C14:intersect:{kind}:3d:{why}", desc, [p.tolist()], [np.round(np.asarray(v.array), 6).tolist() for v in r[1]], replay=[desc])
+
+
 def correspondence(ctx):
+    corpus_stream(ctx)
     intersect_stream(ctx, ctx.budget(300, 5000))
     special_stream(ctx, ctx.budget(100, 1500))
     tangent_dual_stream(ctx, ctx.budget(100, 1500))
